@@ -93,8 +93,18 @@ def check_valid(numeral, unit, space_idx):
                 and got[1] == want_unit) and not (value == 0 and got[0] == 0 and got[1] == want_unit):
             out.append(("parse", f"parseLengthWithUnits({desc}) = {got!r}, expected "
                         f"({float(value)!r}, {want_unit!r})"))
+        # the same text as an instance of a str subclass (what an XML library's xpath() hands
+        # out for an attribute): it *is* text
+        sub = plot_utils.parseLengthWithUnits(AttributeText(text))
+        if sub != got:
+            out.append(("parse_subclass", f"parseLengthWithUnits(<str subclass instance {desc}>) = "
+                        f"{sub!r}, the plain str gives {got!r}"))
         ref = None if unit != "%" else REF
         user = plot_utils.unitsToUserUnits(text, ref)
+        user_sub = plot_utils.unitsToUserUnits(AttributeText(text), ref)
+        if user_sub != user:
+            out.append(("to_user_subclass", f"unitsToUserUnits(<str subclass instance {desc}>) = "
+                        f"{user_sub!r}, the plain str gives {user!r}"))
         if unit == "%":
             want_user = value * F(REF) / 100
         else:
@@ -195,6 +205,10 @@ def _chunk(args):
                 text = prefix + "".join(rest)
                 _one_string(part, text)
     return part
+
+
+class AttributeText(str):
+    """A str subclass, as XML libraries hand out for attribute values (lxml's xpath results)."""
 
 
 def _one_string(part, text):
